@@ -30,7 +30,7 @@ def compile_raw(exe, workdir, stem, text, timeout=120):
     return funcs, stem + ".mmm"
 
 
-def run_real(exe, workdir, stem, text, timeout=60, trace=None):
+def run_real(exe, workdir, stem, text, timeout=60, trace=None, full_stderr=False):
     """trace: a list to receive the per-instruction records of the trace hook (function, ip, frames, scope markers, operand stack)"""
     src = os.path.join(workdir, stem + ".ms")
     with open(src, "w") as f:
@@ -57,7 +57,7 @@ def run_real(exe, workdir, stem, text, timeout=60, trace=None):
     lines = p.stdout.split("\n")
     if lines and lines[-1] == "":
         lines.pop()
-    return p.returncode, lines, p.stderr[-400:]
+    return p.returncode, lines, (p.stderr if full_stderr else p.stderr[-400:])
 
 
 def explore_impl(funcs, module_path, nin, assumptions, limits):
@@ -87,9 +87,27 @@ def concrete(run, *a):
     return p["status"], [ref.fmt_value(v) for v in p["out"]], p["detail"]
 
 
-def predict_impl(funcs, module_path, values, trace=None):
+def predict_impl(funcs, module_path, values, trace=None, holder=None):
     inputs = {ref.input_literal(k): v for k, v in enumerate(values)}
-    return concrete(lambda o: vm.run_module(funcs, module_path, o, inputs, trace=trace))
+    return concrete(lambda o: vm.run_module(funcs, module_path, o, inputs, trace=trace, holder=holder))
+
+
+def parse_call_trace(stderr):
+    """the frames listed under `Call stack trace:` of a fatal run-time error, innermost first; None if there is no such report"""
+    lines = stderr.split("\n")
+    for i, l in enumerate(lines):
+        if l.strip() == "Call stack trace:":
+            out = []
+            for m in lines[i + 1:]:
+                t = m.strip()
+                if t.startswith(">> "):
+                    out.append(t[3:])
+                elif t.startswith("^ "):
+                    out.append(t[2:])
+                else:
+                    break
+            return out
+    return None
 
 
 def predict_ref(prog, values):
